@@ -122,12 +122,12 @@ def run(ctx, config="default"):
             ctx.finding("C14.S2", enc, "encode-whole", "base64url_encode is not URL_SAFE_NO_PAD.encode(data): %s" % vstr(ev, 4))
     # ---- S3 decoys
     for (b, n_) in I.sd_pushes:
-        dfn = I.decoy_fn_of(n_.kids[1])
-        if dfn is None:
+        dec = I.decoy_of(I.obj_builder, n_.kids[1], b)
+        if dec is None:
             continue
-        rvd = vals(dfn).return_value()
+        rvd, dfn = dec.rv, dec.host
         hs = [x for x in walk(rvd) if x.kind == "call" and (x.d["term"].get("resolved") or "") == "utils::base64_hash"]
-        okd = bool(hs) and must(rvd, lambda x: x in hs) and all(must(h.kids[0], lambda y: y.kind == "call" and y.d["term"].get("resolved") == gname and y.fn is dfn and not y.kids) for h in hs)
+        okd = bool(hs) and must(rvd, lambda x: x in hs) and all(must(h.kids[0], lambda y: y.kind == "call" and y.d["term"].get("resolved") == gname and dec.fresh(y) and not y.kids) for h in hs)
         if okd:
             ctx.ok("C14.S3", dfn, "decoy-salt", "decoy digest = base64_hash(%s()) with a fresh call per decoy" % gname)
         else:
